@@ -59,12 +59,17 @@ def run_fixed(run, db, rule, fname, sign, parities=None):
     classes = list(parity_classes(['n0', 'n1', 'M0', 'M1'])) if parities is None else parities
     for par in classes:
         it, dom = K.mk(db, par)
+        from .c01 import watch_coincidences
+        watch_coincidences(it, dom)
         R = dom.R
         alpha = Rat(R.atom('input_dx')) * Rat(R.atom('output_dx')) / (Rat(R.atom('wavelength')) * Rat(R.atom('prop_dist')))
         for sh in SHIFTS:
             res = [p for p in it.run(f, kwargs=lambda: fs_ctx(dom, sh, 'czt')) if p.outcome == 'return']
             if sign > 0:
                 res = [p for p in res]      # iczt2 has a real/complex guard: both paths are analysed
+            # a path taken only because quantities of the two axes were assumed equal describes a square problem; square problems are
+            # judged by the square contexts of C01.chirp with the symbols identified, not here with symbols that differ
+            res = [p for p in res if not any(e['kind'] == 'coincidence' for e in p.events)]
             if not res:
                 raise AnalysisError('%s(czt): no returning path' % f.qual)
             for p in res:
